@@ -20,6 +20,7 @@ PROPS = {
     "C15": "analysis.props.p_c15",
     "C16": "analysis.props.p_c16",
     "C18": "analysis.props.p_c18",
+    "C19": "analysis.props.p_c19",
 }
 
 
